@@ -1,158 +1,28 @@
-(* HeapP4: reroute, gfind / ph_if_exists, the duplication invariant and its two elementary steps
-   (make a placeholder for one more tensor; give a placeholder its list of children). *)
+(* HeapP21: T6 (the in-place statement is never stuck) and T5 (wf is preserved by every clear-free statement). *)
 From Coq Require Import List Arith Bool PeanoNat Lia.
 Import ListNotations.
 From MG Require Import Model.Heap.
-Require Import HeapP1 HeapWfb HeapP2 HeapP3.
+Require Import HeapP1 HeapWfb HeapP2 HeapP3 HeapP4 HeapP5 HeapP6 HeapP7 HeapP8 HeapP9 HeapP10 HeapP11 HeapP12 HeapP13 HeapP14
+               HeapP15 HeapP16 HeapP17 HeapP18 HeapP19 HeapP20.
 
-(* ------------------------------------------------------------------ reroute *)
+Lemma wf_same_tables h h' : wf h -> same_tables h h' -> h_next h <= h_next h' -> wf h'.
+Proof. intros W (S1 & S2 & S3 & S4 & S5) L. apply wfx_nil. apply wfx_nil in W.
+  destruct h' as [a b c d e n]. simpl in *. subst. apply (wfx_bump [] h n W L). Qed.
 
-Lemma repl_idem a b l : repl a b (repl a b l) = repl a b l.
-Proof. unfold repl. rewrite map_map. apply map_ext. intros v.
-  destruct (Nat.eqb v a) eqn:E; auto.
-  - destruct (Nat.eqb b a); auto.
-  - now rewrite E. Qed.
-
-Definition rr_fun (src tgt : id) (S : list id) (o : id) (r : oper) : oper :=
-  if mem o S then mkO (o_kind r) (repl src tgt (o_vars r)) (o_keep r) else r.
-
-Definition rr_step (src tgt : id) (h : heap) (o : id) : heap :=
-  match getO h o with
-  | Some r => setO h o (mkO (o_kind r) (repl src tgt (o_vars r)) (o_keep r))
-  | None => h end.
-
-Lemma rr_step_spec src tgt h o1 :
-  let h1 := rr_step src tgt h o1 in
-  h_t h1 = h_t h /\ h_set h1 = h_set h /\ h_lst h1 = h_lst h /\ h_arr h1 = h_arr h /\ h_next h1 = h_next h /\
-  keys (h_o h1) = keys (h_o h) /\
-  forall o, getO h1 o = option_map (rr_fun src tgt [o1] o) (getO h o).
-Proof. unfold rr_step. destruct (getO h o1) as [r1|] eqn:E1; simpl.
-  - repeat split; auto.
-    + unfold getO in E1. apply keys_put_in. eapply get_keys; eauto.
-    + intros o. unfold getO in *; simpl. rewrite get_put. unfold rr_fun; simpl.
-      destruct (Nat.eqb o1 o) eqn:E.
-      * apply Nat.eqb_eq in E; subst o. rewrite E1. simpl. rewrite Nat.eqb_refl. reflexivity.
-      * rewrite Nat.eqb_sym, E. simpl. now destruct (get (h_o h) o).
-  - repeat split; auto. intros o. unfold rr_fun; simpl.
-    destruct (Nat.eqb o o1) eqn:E; simpl.
-    + apply Nat.eqb_eq in E; subst o. now rewrite E1.
-    + now destruct (getO h o). Qed.
-
-Lemma rr_fun_cons src tgt o1 S o r : rr_fun src tgt S o (rr_fun src tgt [o1] o r) = rr_fun src tgt (o1 :: S) o r.
-Proof. unfold rr_fun; simpl. destruct (Nat.eqb o o1) eqn:E; simpl.
-  - destruct (mem o S); simpl; auto. now rewrite repl_idem.
-  - reflexivity. Qed.
-
-Lemma rr_fold src tgt S : forall h,
-  let h' := fold_left (rr_step src tgt) S h in
-  h_t h' = h_t h /\ h_set h' = h_set h /\ h_lst h' = h_lst h /\ h_arr h' = h_arr h /\ h_next h' = h_next h /\
-  keys (h_o h') = keys (h_o h) /\
-  forall o, getO h' o = option_map (rr_fun src tgt S o) (getO h o).
-Proof. induction S as [|o1 S IH]; intros h; simpl.
-  - repeat split; auto. intros o. unfold rr_fun; simpl. now destruct (getO h o).
-  - specialize (IH (rr_step src tgt h o1)). simpl in IH.
-    destruct IH as (I1 & I2 & I3 & I4 & I5 & I6 & I7).
-    destruct (rr_step_spec src tgt h o1) as (J1 & J2 & J3 & J4 & J5 & J6 & J7).
-    repeat split; try congruence.
-    intros o. rewrite I7, J7. destruct (getO h o); simpl; auto. now rewrite rr_fun_cons. Qed.
-
-Lemma reroute_spec h src tgt h' : reroute h src tgt = Some h' ->
-  exists ts, getT h src = Some ts /\
-  h_t h' = h_t h /\ h_set h' = h_set h /\ h_lst h' = h_lst h /\ h_arr h' = h_arr h /\ h_next h' = h_next h /\
-  keys (h_o h') = keys (h_o h) /\
-  forall o, getO h' o = option_map (rr_fun src tgt (set_of h (t_ops ts)) o) (getO h o).
-Proof. unfold reroute. intros H. apply bind_Some in H. destruct H as (ts & E & H). inversion H; subst h'. clear H.
-  change (fun (h1 : heap) (o : id) => match getO h1 o with Some r => setO h1 o (mkO (o_kind r) (repl src tgt (o_vars r)) (o_keep r)) | None => h1 end) with (rr_step src tgt).
-  exists ts; split; auto. apply (rr_fold src tgt (set_of h (t_ops ts)) h). Qed.
-
-Lemma reroute_some h src tgt ts : getT h src = Some ts -> exists h', reroute h src tgt = Some h'.
-Proof. unfold reroute. intros ->. simpl. eauto. Qed.
-
-(* ------------------------------------------------------------------ gfind *)
-
-Lemma find_app {A} (f : A -> bool) l1 l2 :
-  find f (l1 ++ l2) = match find f l1 with Some x => Some x | None => find f l2 end.
-Proof. induction l1; simpl; auto. destruct (f a); auto. Qed.
-
-Lemma gfind_app g1 g2 x : gfind (g1 ++ g2) x = match gfind g1 x with Some n => Some n | None => gfind g2 x end.
-Proof. apply find_app. Qed.
-
-Lemma gfind_In g x n : gfind g x = Some n -> In n g /\ (x = n_t n \/ x = n_p n).
-Proof. unfold gfind. intros H. apply find_some in H. destruct H as [H1 H2]. split; auto.
-  apply orb_true_iff in H2. destruct H2 as [H2|H2]; apply Nat.eqb_eq in H2; auto. Qed.
-
-Lemma gfind_None g x : gfind g x = None -> ~ In x (map n_t g) /\ ~ In x (map n_p g).
-Proof. unfold gfind. intros H. split; intros Hin; apply in_map_iff in Hin; destruct Hin as (n & E & Hn);
-  apply (find_none _ _ H) in Hn; apply orb_false_iff in Hn; destruct Hn as [H1 H2];
-  subst x; rewrite Nat.eqb_refl in *; discriminate. Qed.
-
-Lemma NoDup_map_inj {A B} (f : A -> B) l a b : NoDup (map f l) -> In a l -> In b l -> f a = f b -> a = b.
-Proof. induction l; simpl; [tauto|]. intros ND; inversion ND; subst. intros [<-|Ha] [<-|Hb] E; auto.
-  - exfalso; apply H1. rewrite E. now apply in_map.
-  - exfalso; apply H1. rewrite <- E. now apply in_map. Qed.
-
-(* looking up an original: the tensor ids are pairwise distinct and no original is a placeholder *)
-Lemma gfind_t g n : NoDup (map n_t g) -> (forall n', In n' g -> n_p n' <> n_t n) -> In n g -> gfind g (n_t n) = Some n.
-Proof. intros ND HP Hin. destruct (gfind g (n_t n)) as [n'|] eqn:E.
-  - apply gfind_In in E. destruct E as [H1 [H2|H2]].
-    + f_equal. symmetry. eapply NoDup_map_inj; eauto.
-    + exfalso. eapply HP; eauto.
-  - apply gfind_None in E. exfalso. apply (proj1 E). now apply in_map. Qed.
-
-(* ------------------------------------------------------------------ the duplication invariant *)
-
-Definition tp (n : node) : id * option id := (n_t n, n_parent n).
-
-Definition ops_of (h : heap) (v : id) : list id :=
-  match getT h v with Some r => set_of h (t_ops r) | None => [] end.
-
-(* what the variables of operation o have become: an original whose set lists o is replaced by its placeholder *)
-Definition sigma (h0 : heap) (g : list node) (o : id) (v : id) : id :=
-  if mem o (ops_of h0 v) then ph_if_exists g v else v.
-
-(* the _base of the placeholder of a node *)
-Definition bb (bph : id) (rb : option id) (n : node) : option id :=
-  match n_parent n with None => rb | Some _ => Some bph end.
-
-Definition ph_rec (h0 : heap) (bph : id) (rb : option id) (h : heap) (g : list node) (L : list id) (n : node) : Prop :=
-  exists r0 rp, getT h0 (n_t n) = Some r0 /\ getT h (n_p n) = Some rp /\ t_grad r0 = false /\
-    (rp = with_base r0 (bb bph rb n) \/
-     exists l, In l L /\ rp = with_children (with_base r0 (bb bph rb n)) l /\
-               get (h_lst h) l = Some (map (ph_if_exists g) (fkids h0 (n_t n))) /\
-               forall x, In x (fkids h0 (n_t n)) -> In x (map n_t g)).
-
-Record Inv (h0 : heap) (bph : id) (rb : option id) (h : heap) (g : list node) (L : list id) : Prop := mkInv {
-  i_set : h_set h = h_set h0;
-  i_arr : h_arr h = h_arr h0;
-  i_next : h_next h0 <= h_next h;
-  i_tkeys : keys (h_t h) = keys (h_t h0) ++ map n_p g;
-  i_tget : forall t, t < h_next h0 -> getT h t = getT h0 t;
-  i_p : forall n, In n g -> h_next h0 <= n_p n < h_next h;
-  i_pnd : NoDup (map n_p g);
-  i_tnd : NoDup (map n_t g);
-  i_tlt : forall n, In n g -> n_t n < h_next h0;
-  i_lkeys : keys (h_lst h) = keys (h_lst h0) ++ L;
-  i_lget : forall l, l < h_next h0 -> get (h_lst h) l = get (h_lst h0) l;
-  i_L : forall l, In l L -> h_next h0 <= l < h_next h /\
-                  exists n rp, In n g /\ getT h (n_p n) = Some rp /\ t_children rp = l;
-  i_Lnd : NoDup L;
-  i_okeys : keys (h_o h) = keys (h_o h0);
-  i_oget : forall o, getO h o = option_map (fun r0 => mkO (o_kind r0) (map (sigma h0 g o) (o_vars r0)) (o_keep r0)) (getO h0 o);
-  i_ph : forall n, In n g -> ph_rec h0 bph rb h g L n;
-  (* the placeholder of a parent is older than the placeholders of its children *)
-  i_pord : forall n q, In n g -> n_parent n = Some q -> exists nq, In nq g /\ n_t nq = q /\ n_p nq < n_p n;
-  (* the graph lists the nodes in the order of creation of their placeholders *)
-  i_psort : forall g1 n g2, g = g1 ++ n :: g2 -> forall n', In n' g2 -> n_p n < n_p n';
-  (* different placeholders own different fresh lists *)
-  i_ldist : forall n n' rp rp', In n g -> In n' g -> getT h (n_p n) = Some rp -> getT h (n_p n') = Some rp' ->
-            h_next h0 <= t_children rp -> t_children rp = t_children rp' -> n = n'
-}.
-
-Definition finished (h0 h : heap) (n : node) : Prop :=
-  exists rp, getT h (n_p n) = Some rp /\ h_next h0 <= t_children rp.
-
-Lemma Inv_init h0 bph rb : Inv h0 bph rb h0 [] [].
-Proof. constructor; simpl; auto; try tauto; try constructor; try (intros; tauto).
-  - now rewrite app_nil_r.
-  - now rewrite app_nil_r.
-  - Show. Abort.
+Lemma success_from_dup h m tm0 h3 r2 pb h4 g path h5 am h6 at_ k inputs masked :
+  wf h -> getT h m = Some tm0 -> Preamble h m tm0 h3 r2 pb ->
+  dup h3 (match t_base r2 with Some b => b | None => m end) = Some (h4, g) ->
+  path_to_base g m = Some path -> new_array h4 None None = (h5, am) ->
+  (if Nat.eqb m (match t_base r2 with Some b => b | None => m end) then Some (h5, am) else view_array h5 am) = Some (h6, at_) ->
+  (forall i, In i inputs -> getT h i <> None) ->
+  exists h12, inplace_success h6 g m k inputs masked am at_ (match t_base r2 with Some b => b | None => m end) path = Some (Done h12) /\ wf h12.
+Proof. intros W Hm P D EP NA E6 Hin.
+  set (root := match t_base r2 with Some b => b | None => m end) in *.
+  pose proof (pr_wf _ _ _ _ _ _ P) as W3.
+  destruct (dup_spec h3 root h4 g W3 D) as (tb & L & DS).
+  pose proof (FZ_h4 h3 root h4 g tb L W3 DS) as F4.
+  pose proof (FZ_new_array root h4 g h4 None None h5 am F4 NA) as F5.
+  pose proof (new_array_spec _ _ _ _ _ NA) as (N1 & N2 & N3 & N4 & N5 & N6 & N7 & N8).
+  assert (F6 : FZ root h4 g h6 /\ getA h6 at_ <> None /\ getA h6 am <> None).
+  { destruct (Nat.eqb m root).
+    - inversion E6; subst. Show. Abort.
